@@ -18,7 +18,8 @@ import re
 import six
 
 from genshi.core import Attrs, QName, stripentities
-from genshi.core import END, START, TEXT, COMMENT, PI, START_CDATA, END_CDATA
+from genshi.core import END, START, TEXT, COMMENT, PI, DOCTYPE, START_CDATA, \
+                        END_CDATA
 
 __all__ = ['HTMLFormFiller', 'HTMLSanitizer']
 __docformat__ = 'restructuredtext en'
@@ -421,6 +422,13 @@ class HTMLSanitizer(object):
             elif kind is PI and ('>' in data[0] or '>' in data[1]):
                 # An HTML parser ends a processing instruction at the first
                 # '>': what follows would be read as markup
+                continue
+
+            elif kind is DOCTYPE and [part for part in data
+                                      if part and '>' in part]:
+                # An HTML parser ends a DOCTYPE declaration at the first '>',
+                # inside a quoted identifier or not: what follows would be
+                # read as markup
                 continue
 
             elif kind is START_CDATA or kind is END_CDATA:
